@@ -692,6 +692,10 @@ package jsonpath
 //@   implements syntaxNode.retrieve
 //@   unfold WFnode(this) ==> WFrecursiveDef(i)
 //@   ensures mismatch: !isType(current, map[string]interface{}) && !isType(current, []interface{}) ==> mismatch(ret, i.errorRuntime, "object/array", current) && len(container.result) == old(len(container.result))
+//@   loop 2 step sameprefix: len(prev_targetNodes) <= len(targetNodes) && off(prev_targetNodes) == off(targetNodes) && (forall s {targetNodes[s]} :: 0 <= s && s < len(prev_targetNodes) ==> targetNodes[s] == prev_targetNodes[s]) && (forall s {snAt(i, root, targetNodes, s)} :: 0 <= s && s <= len(prev_targetNodes) ==> snAt(i, root, targetNodes, s) == snAt(i, root, prev_targetNodes, s))
+//@   loop 3 step sameprefix: len(prev_targetNodes) <= len(targetNodes) && off(prev_targetNodes) == off(targetNodes) && (forall s {targetNodes[s]} :: 0 <= s && s < len(prev_targetNodes) ==> targetNodes[s] == prev_targetNodes[s]) && (forall s {snAt(i, root, targetNodes, s)} :: 0 <= s && s <= len(prev_targetNodes) ==> snAt(i, root, targetNodes, s) == snAt(i, root, prev_targetNodes, s))
+//@   loop 2 step newtop: RLok(this) && len(targetNodes) == len(prev_targetNodes) + 1 ==> (forall k {RDv(i, root, targetNodes[len(targetNodes) - 1], k)} :: 0 <= k && k < DN(i, root, targetNodes[len(targetNodes) - 1]) ==> RDv(i, root, current, DN(i, root, current) - snAt(i, root, targetNodes, len(targetNodes)) + k) == RDv(i, root, targetNodes[len(targetNodes) - 1], k))
+//@   loop 3 step newtop: RLok(this) && len(targetNodes) == len(prev_targetNodes) + 1 ==> (forall k {RDv(i, root, targetNodes[len(targetNodes) - 1], k)} :: 0 <= k && k < DN(i, root, targetNodes[len(targetNodes) - 1]) ==> RDv(i, root, current, DN(i, root, current) - snAt(i, root, targetNodes, len(targetNodes)) + k) == RDv(i, root, targetNodes[len(targetNodes) - 1], k))
 //@   loop 1 invariant rtop: off(targetNodes) == 0 && (len(targetNodes) > 0 ==> extVal(targetNodes[len(targetNodes) - 1]))
 //@   loop 1 invariant rtopseg: RLok(this) && len(targetNodes) > 0 ==> (forall x {RDv(i, root, current, x)} :: (len(container.result) - old(len(container.result))) <= x && x < (len(container.result) - old(len(container.result))) + DN(i, root, targetNodes[len(targetNodes) - 1]) ==> RDv(i, root, current, x) == RDv(i, root, targetNodes[len(targetNodes) - 1], x - (len(container.result) - old(len(container.result)))))
 //@   loop 1 invariant rcnt: RLok(this) ==> (len(container.result) - old(len(container.result))) + snAt(i, root, targetNodes, len(targetNodes)) == DN(i, root, current)
